@@ -529,6 +529,15 @@ class World:
             # in-memory connection by a fresh (empty) one: put the base store back
             signal.setitimer(signal.ITIMER_REAL, 0)
             try:
+                # never deserialize into a connection that may still have a statement in flight (libsqlite3 crashed
+                # on that once): drop the connection first, the pool opens a fresh one
+                with self.app.app_context():
+                    try:
+                        self.models.db.session.rollback()
+                    except Exception:
+                        pass
+                    self.models.db.session.remove()
+                    self.models.db.engine.dispose()
                 self.restore(self.base_snapshot)
             except Exception:
                 World._instance = None
